@@ -100,40 +100,43 @@ def runCleanups : Nat → List Part → Outcome → List Op × Outcome
       let r2 := runCleanups (k + 1) ps r.2
       (r.1 ++ r2.1, r2.2)
 
+/-- the test method: its subtests, then the rest of the body (skipped after `_ShouldStop` or an
+interrupt) -/
+def methodOps (t : TestDef) (o : Outcome) : List Op × Outcome :=
+  let rs := runSubs 0 t.subs o
+  if rs.2.2 then (rs.1, rs.2.1)
+  else (rs.1 ++ (runPart .body t.body rs.2.1).1, (runPart .body t.body rs.2.1).2)
+
+/-- the part of `TestCase.run` between a successful `setUp` and `doCleanups`: the test method and
+`tearDown` -/
+def bodyBlock (t : TestDef) (o1 : Outcome) : List Op × Outcome :=
+  if o1.success then
+    let rb := methodOps t { o1 with expecting := t.expectFail }
+    if rb.2.interrupted then rb
+    else
+      let rt := runPart .tearDown t.tearDown { rb.2 with expecting := false }
+      (rb.1 ++ rt.1, rt.2)
+  else ([], o1)
+
+/-- the closing result of a test whose parts all ran -/
+def finalOps (t : TestDef) (o : Outcome) : List Op :=
+  if o.success then
+    (if t.expectFail then (if o.expectedFailure then [Op.addExpectedFailure] else [Op.addUnexpectedSuccess])
+     else [Op.addSuccess])
+  else []
+
 /-- `TestCase.run(result)` -/
 def run (t : TestDef) : List Op :=
   if t.decoSkip then [.addSkip, .stopTest]
   else
-    let o : Outcome := {}
-    let r1 := runPart .setUp t.setUp o
-    if r1.2.interrupted then [.startTest] ++ r1.1 ++ [.stopTest, .raiseInterrupt]
+    let r1 := runPart .setUp t.setUp {}
+    if r1.2.interrupted then .startTest :: (r1.1 ++ [] ++ .stopTest :: [.raiseInterrupt])
     else
-      let (ops2, o2) :=
-        if r1.2.success then
-          let o := { r1.2 with expecting := t.expectFail }
-          -- body: the test method starts, runs its subtests, then the rest
-          let rs := runSubs 0 t.subs o
-          let (opsB, oB) :=
-            if rs.2.2 then (rs.1, rs.2.1)          -- `_ShouldStop` / interrupt: rest of the body skipped
-            else
-              let rb := runPart .body t.body rs.2.1
-              (rs.1 ++ rb.1, rb.2)
-          if oB.interrupted then (opsB, oB)
-          else
-            let oB := { oB with expecting := false }
-            let rt := runPart .tearDown t.tearDown oB
-            (opsB ++ rt.1, rt.2)
-        else ([], r1.2)
-      if o2.interrupted then [.startTest] ++ r1.1 ++ ops2 ++ [.stopTest, .raiseInterrupt]
+      let b := bodyBlock t r1.2
+      if b.2.interrupted then .startTest :: ((r1.1 ++ b.1) ++ [] ++ .stopTest :: [.raiseInterrupt])
       else
-        let rc := runCleanups 0 t.cleanups o2
-        if rc.2.interrupted then [.startTest] ++ r1.1 ++ ops2 ++ rc.1 ++ [.stopTest, .raiseInterrupt]
-        else
-          let final :=
-            if rc.2.success then
-              (if t.expectFail then (if rc.2.expectedFailure then [Op.addExpectedFailure] else [Op.addUnexpectedSuccess])
-               else [Op.addSuccess])
-            else []
-          [.startTest] ++ r1.1 ++ ops2 ++ rc.1 ++ final ++ [.stopTest]
+        let rc := runCleanups 0 t.cleanups b.2
+        if rc.2.interrupted then .startTest :: ((r1.1 ++ b.1 ++ rc.1) ++ [] ++ .stopTest :: [.raiseInterrupt])
+        else .startTest :: ((r1.1 ++ b.1 ++ rc.1) ++ finalOps t rc.2 ++ .stopTest :: [])
 
 end Ztr.Proto
